@@ -1,11 +1,64 @@
-//! C10 + C11 on the enumerable NFT flavour (examples/nft-enumerable compiled from source): sequential mints,
-//! plus total_supply / global and per-owner index lists.
+//! C10 + C11 on three NFT worlds sampled per run: examples/nft-enumerable compiled from source (sequential
+//! mints), an Enumerable wrapper that also exposes `non_sequential_mint`, and a Base wrapper (sequential mint +
+//! explicit ids from a disjoint high range; no enumeration). Ownership, balances, approvals, operators after
+//! every step; total_supply / global and per-owner index lists in the enumerable worlds.
 
 use crate::core::*;
 use crate::world::{Base as W, Inv};
 use serde::{Deserialize, Serialize};
-use soroban_sdk::{IntoVal, String as SString};
+use soroban_sdk::{contract, contractimpl, Address, Env, IntoVal, String as SString, Symbol, Val};
 use std::collections::{BTreeMap, BTreeSet};
+use stellar_tokens::non_fungible::{burnable::NonFungibleBurnable, enumerable::{Enumerable, NonFungibleEnumerable}, Base as NBase, NonFungibleToken};
+
+/// Enumerable wrapper: sequential and explicit (non-sequential) mints
+#[contract]
+pub struct EnumW;
+#[contractimpl]
+impl EnumW {
+    pub fn mint(e: &Env, to: Address) -> u32 {
+        Enumerable::sequential_mint(e, &to)
+    }
+    pub fn mint_id(e: &Env, to: Address, token_id: u32) {
+        Enumerable::non_sequential_mint(e, &to, token_id);
+    }
+}
+#[contractimpl(contracttrait)]
+impl NonFungibleToken for EnumW {
+    type ContractType = Enumerable;
+}
+#[contractimpl(contracttrait)]
+impl NonFungibleEnumerable for EnumW {}
+#[contractimpl(contracttrait)]
+impl NonFungibleBurnable for EnumW {}
+
+/// Base wrapper: sequential and explicit mints, no enumeration
+#[contract]
+pub struct BaseW;
+#[contractimpl]
+impl BaseW {
+    pub fn mint(e: &Env, to: Address) -> u32 {
+        NBase::sequential_mint(e, &to)
+    }
+    pub fn mint_id(e: &Env, to: Address, token_id: u32) {
+        NBase::mint(e, &to, token_id);
+    }
+}
+#[contractimpl(contracttrait)]
+impl NonFungibleToken for BaseW {
+    type ContractType = NBase;
+}
+#[contractimpl(contracttrait)]
+impl NonFungibleBurnable for BaseW {}
+
+#[derive(Clone, Copy, Debug, Serialize, Deserialize, PartialEq, Default)]
+pub enum Kind {
+    #[default]
+    EnumExample,
+    EnumWrapper,
+    BaseWrapper,
+}
+/// explicit ids live in a range disjoint from the sequential counter
+const EXPLICIT_LO: u32 = 1_000_000;
 
 mod ex {
     #[path = "/repo/examples/nft-enumerable/src/contract.rs"]
@@ -29,6 +82,8 @@ impl Live {
 #[derive(Clone, Debug, Serialize, Deserialize)]
 pub enum Step {
     BatchMint { to: usize, amount: u32, signed: bool },
+    /// explicit mint of an id that does not exist at that moment (fresh, or burned before)
+    MintId { to: usize, id: u32 },
     Transfer { from: usize, to: usize, id: u32, signer: Option<usize> },
     TransferFrom { spender: usize, from: usize, to: usize, id: u32, signer: Option<usize> },
     Burn { from: usize, id: u32, signer: Option<usize> },
@@ -41,6 +96,8 @@ pub enum Step {
 pub struct Cfg {
     pub actors: usize,
     pub start_ledger: u32,
+    #[serde(default)]
+    pub kind: Kind,
 }
 const MAX_TTL: u32 = 6_311_999;
 
@@ -53,9 +110,14 @@ struct Model {
     ops: BTreeMap<(usize, usize), u32>,
     now: u32,
     bal: BTreeMap<usize, u32>,
+    /// explicitly minted ids: Some(owner) or None (burned)
+    explicit: BTreeMap<u32, Option<usize>>,
 }
 impl Model {
     fn owner_of(&self, id: u32) -> Option<usize> {
+        if id >= EXPLICIT_LO {
+            return self.explicit.get(&id).cloned().flatten();
+        }
         if id >= self.next {
             return None;
         }
@@ -79,8 +141,15 @@ impl Model {
         if let Some(t) = to {
             *self.bal.entry(t).or_insert(0) += 1;
         }
-        self.moved.insert(id, to);
+        if id >= EXPLICIT_LO {
+            self.explicit.insert(id, to);
+        } else {
+            self.moved.insert(id, to);
+        }
         self.appr.remove(&id);
+    }
+    fn live_ids(&self) -> BTreeMap<u32, usize> {
+        (0..self.next).chain(self.explicit.keys().cloned()).filter_map(|t| self.owner_of(t).map(|o| (t, o))).collect()
     }
     fn live_ok(&self, l: u32) -> bool {
         l >= self.now && l <= self.now + MAX_TTL
@@ -99,6 +168,16 @@ impl Model {
                 self.batches.push((self.next, self.next + amount - 1, to));
                 self.next += amount;
                 *self.bal.entry(to).or_insert(0) += amount;
+                true
+            }
+            Step::MintId { to, id } => {
+                if self.owner_of(id).is_some() || id < EXPLICIT_LO {
+                    // the library documents that an explicit mint must not target an existing id; never generated
+                    return false;
+                }
+                self.explicit.insert(id, Some(to));
+                *self.bal.entry(to).or_insert(0) += 1;
+                // an approval left on a burned id is cleared by the burn already
                 true
             }
             Step::Transfer { from, to, id, signer } => {
@@ -185,7 +264,10 @@ impl Model {
             }
         }
         for (id, _) in self.moved.iter().rev().take(6) {
-            c.extend([id.saturating_sub(1), *id, id + 1, id + 2, id.saturating_sub(2)]);
+            c.extend([id.saturating_sub(1), *id, id.saturating_add(1), id.saturating_add(2), id.saturating_sub(2)]);
+        }
+        for (id, _) in self.explicit.iter().rev().take(6) {
+            c.extend([*id, *id, id.saturating_add(1)]);
         }
         c.push(self.next);
         c.push(self.next + 5);
@@ -194,6 +276,44 @@ impl Model {
             c.push(rng.below(self.next as u64) as u32);
         }
         *rng.pick(&c)
+    }
+}
+
+/// dynamic client: the three worlds share one alphabet
+struct Dyn<'a> {
+    e: &'a Env,
+    id: &'a Address,
+}
+impl<'a> Dyn<'a> {
+    fn call(&self, f: &str, args: soroban_sdk::Vec<Val>) -> bool {
+        self.e.try_invoke_contract::<Val, soroban_sdk::Error>(self.id, &Symbol::new(self.e, f), args).map(|r| r.is_ok()).unwrap_or(false)
+    }
+    fn q<T: soroban_sdk::TryFromVal<Env, Val>>(&self, f: &str, args: soroban_sdk::Vec<Val>) -> Option<T> {
+        match self.e.try_invoke_contract::<T, soroban_sdk::Error>(self.id, &Symbol::new(self.e, f), args) {
+            Ok(Ok(v)) => Some(v),
+            _ => None,
+        }
+    }
+    fn owner_of(&self, t: u32) -> Option<Address> {
+        self.q("owner_of", (t,).into_val(self.e))
+    }
+    fn get_approved(&self, t: u32) -> Option<Address> {
+        self.q::<Option<Address>>("get_approved", (t,).into_val(self.e)).expect("get_approved answers")
+    }
+    fn balance(&self, a: &Address) -> u32 {
+        self.q("balance", (a.clone(),).into_val(self.e)).expect("balance answers")
+    }
+    fn is_approved_for_all(&self, o: &Address, op: &Address) -> bool {
+        self.q("is_approved_for_all", (o.clone(), op.clone()).into_val(self.e)).expect("is_approved_for_all answers")
+    }
+    fn total_supply(&self) -> u32 {
+        self.q("total_supply", ().into_val(self.e)).expect("total_supply answers")
+    }
+    fn get_token_id(&self, k: u32) -> Option<u32> {
+        self.q("get_token_id", (k,).into_val(self.e))
+    }
+    fn get_owner_token_id(&self, o: &Address, k: u32) -> Option<u32> {
+        self.q("get_owner_token_id", (o.clone(), k).into_val(self.e))
     }
 }
 
@@ -213,7 +333,7 @@ impl Check for NftEnumerable {
         }
     }
     fn components(&self) -> serde_json::Value {
-        serde_json::json!({"real": ["examples/nft-consecutive (from source)", "non_fungible::{Base, consecutive::Consecutive, sequential, burnable}"], "stub": ["Wallet"]})
+        serde_json::json!({"real": ["examples/nft-enumerable (from source)", "non_fungible::{Base, enumerable::Enumerable (sequential_mint, non_sequential_mint, index lists), burnable}", "Base wrapper: Base::sequential_mint + Base::mint with explicit ids"], "stub": ["Wallet"]})
     }
     fn property_of(&self, check: &str) -> std::vec::Vec<&'static str> {
         if check.starts_with("owner.") || check.starts_with("balance.") || check.starts_with("enum.") || check.starts_with("supply.") || check.starts_with("ids.") || check.starts_with("others.") {
@@ -225,7 +345,7 @@ impl Check for NftEnumerable {
         }
     }
     fn generate(&self, rng: &mut Rng, tier: Tier) -> (Cfg, Vec<Step>) {
-        let cfg = Cfg { actors: 3 + rng.below(3) as usize, start_ledger: 1 + rng.below(100_000) as u32 };
+        let cfg = Cfg { actors: 3 + rng.below(3) as usize, start_ledger: 1 + rng.below(100_000) as u32, kind: *rng.pick(&[Kind::EnumExample, Kind::EnumWrapper, Kind::BaseWrapper]) };
         let n = cfg.actors as u64;
         let nsteps = if tier == Tier::Quick { 25 + rng.below(50) } else { 25 + rng.below(100) } as usize;
         let mut m = Model { now: cfg.start_ledger, ..Default::default() };
@@ -245,7 +365,25 @@ impl Check for NftEnumerable {
                     6 => 1,
                     _ => 2 + rng.below(12) as u32,
                 };
-                Step::BatchMint { to: any(rng), amount, signed: !rng.chance(5) }
+                Step::BatchMint { to: any(rng), amount, signed: cfg.kind != Kind::EnumExample || !rng.chance(5) }
+            } else if cfg.kind != Kind::EnumExample && rng.chance(12) {
+                // explicit mint: a fresh id (sparse, adjacent to earlier ones) or one that was burned before
+                let burned: Vec<u32> = m.explicit.iter().filter(|(_, o)| o.is_none()).map(|(t, _)| *t).collect();
+                let id = if !burned.is_empty() && rng.chance(30) {
+                    *rng.pick(&burned)
+                } else {
+                    let mut id = match rng.below(4) {
+                        0 => EXPLICIT_LO + rng.below(8) as u32,
+                        1 => u32::MAX - rng.below(4) as u32,
+                        2 => m.explicit.keys().next_back().map(|k| k.saturating_add(1)).unwrap_or(EXPLICIT_LO),
+                        _ => EXPLICIT_LO + rng.below(4_000_000_000 - EXPLICIT_LO as u64) as u32,
+                    };
+                    while m.explicit.contains_key(&id) {
+                        id = if id == u32::MAX { EXPLICIT_LO } else { id + 1 };
+                    }
+                    id
+                };
+                Step::MintId { to: any(rng), id }
             } else {
                 let id = m.interesting_ids(rng);
                 let o = m.owner_of(id);
@@ -328,8 +466,14 @@ impl Check for NftEnumerable {
         let w = W::new(cfg.actors, cfg.start_ledger, 16);
         let e = &w.e;
         let a = |i: usize| w.actors[i].clone();
-        let id = e.register(ExampleContract, (SString::from_str(e, "https://x/"), SString::from_str(e, "n"), SString::from_str(e, "s"), a(0)));
-        let c = ExampleContractClient::new(e, &id);
+        let id = match cfg.kind {
+            Kind::EnumExample => e.register(ExampleContract, (SString::from_str(e, "https://x/"), SString::from_str(e, "n"), SString::from_str(e, "s"), a(0))),
+            Kind::EnumWrapper => e.register(EnumW, ()),
+            Kind::BaseWrapper => e.register(BaseW, ()),
+        };
+        let _ = ExampleContractClient::new(e, &id);
+        let c = Dyn { e, id: &id };
+        let enumerable = cfg.kind != Kind::BaseWrapper;
         let mut m = Model { now: cfg.start_ledger, ..Default::default() };
         let mut watch: BTreeSet<u32> = BTreeSet::new();
         for (i, s) in steps.iter().enumerate() {
@@ -347,7 +491,7 @@ impl Check for NftEnumerable {
                 Step::BatchMint { to, amount, signed } => {
                     let amount = &1u32;
                     one(if *signed { Some(0) } else { None }, "mint", (a(*to),).into_val(e));
-                    let r = c.try_mint(&a(*to)).is_ok();
+                    let r = c.call("mint", (a(*to),).into_val(e));
                     if r {
                         let f = m.next;
                         watch.extend([f, f + amount - 1, f.saturating_sub(1), f + amount]);
@@ -359,31 +503,40 @@ impl Check for NftEnumerable {
                     }
                     ("mint", r)
                 }
+                Step::MintId { to, id: t } => {
+                    w.set_auth(&[]);
+                    watch.extend([*t, t.saturating_sub(1), t.saturating_add(1)]);
+                    st.hit("probe.explicit_mint");
+                    if m.explicit.get(t) == Some(&None) {
+                        st.hit("probe.explicit_remint_of_burned_id");
+                    }
+                    ("mint_id", c.call("mint_id", (a(*to), *t).into_val(e)))
+                }
                 Step::Transfer { from, to, id: t, signer } => {
                     one(*signer, "transfer", (a(*from), a(*to), *t).into_val(e));
-                    ("transfer", c.try_transfer(&a(*from), &a(*to), t).is_ok())
+                    ("transfer", c.call("transfer", (a(*from), a(*to), *t).into_val(e)))
                 }
                 Step::TransferFrom { spender, from, to, id: t, signer } => {
                     one(*signer, "transfer_from", (a(*spender), a(*from), a(*to), *t).into_val(e));
-                    ("transfer_from", c.try_transfer_from(&a(*spender), &a(*from), &a(*to), t).is_ok())
+                    ("transfer_from", c.call("transfer_from", (a(*spender), a(*from), a(*to), *t).into_val(e)))
                 }
                 Step::Burn { from, id: t, signer } => {
                     one(*signer, "burn", (a(*from), *t).into_val(e));
-                    ("burn", c.try_burn(&a(*from), t).is_ok())
+                    ("burn", c.call("burn", (a(*from), *t).into_val(e)))
                 }
                 Step::BurnFrom { spender, from, id: t, signer } => {
                     one(*signer, "burn_from", (a(*spender), a(*from), *t).into_val(e));
-                    ("burn_from", c.try_burn_from(&a(*spender), &a(*from), t).is_ok())
+                    ("burn_from", c.call("burn_from", (a(*spender), a(*from), *t).into_val(e)))
                 }
                 Step::Approve { approver, approved, id: t, live, signer } => {
                     let l = live.abs(now);
                     one(*signer, "approve", (a(*approver), a(*approved), *t, l).into_val(e));
-                    ("approve", c.try_approve(&a(*approver), &a(*approved), t, &l).is_ok())
+                    ("approve", c.call("approve", (a(*approver), a(*approved), *t, l).into_val(e)))
                 }
                 Step::ApproveAll { owner, operator, live, signer } => {
                     let l = live.abs(now);
                     one(*signer, "approve_for_all", (a(*owner), a(*operator), l).into_val(e));
-                    ("approve_for_all", c.try_approve_for_all(&a(*owner), &a(*operator), &l).is_ok())
+                    ("approve_for_all", c.call("approve_for_all", (a(*owner), a(*operator), l).into_val(e)))
                 }
             };
             let exp = m.apply(s);
@@ -400,7 +553,7 @@ impl Check for NftEnumerable {
                 return Err(violation(check, kind, i, format!("model expected {exp}, real {got} at {s:?}; now={} owner_model={:?}", w.now(), match s { Step::Transfer { id, .. } | Step::TransferFrom { id, .. } | Step::Burn { id, .. } | Step::BurnFrom { id, .. } | Step::Approve { id, .. } => m.owner_of(*id), _ => None })));
             }
             if let Step::Transfer { id: t, .. } | Step::TransferFrom { id: t, .. } | Step::Burn { id: t, .. } | Step::BurnFrom { id: t, .. } | Step::Approve { id: t, .. } = s {
-                watch.extend([t.saturating_sub(2), t.saturating_sub(1), *t, t + 1, t + 2]);
+                watch.extend([t.saturating_sub(2), t.saturating_sub(1), *t, t.saturating_add(1), t.saturating_add(2)]);
             }
             // ---- ownership of watched ids (+ a margin beyond next)
             let mut ids: Vec<u32> = watch.iter().cloned().collect();
@@ -413,18 +566,12 @@ impl Check for NftEnumerable {
             }
             ids.push(m.next);
             for t in ids {
-                let r = c.try_owner_of(&t);
+                let r = c.owner_of(t);
                 let want = m.owner_of(t);
-                let ok = match (&r, want) {
-                    (Ok(Ok(addr)), Some(x)) => *addr == a(x),
-                    (Ok(Ok(_)), None) => false,
-                    (_, None) => true,
-                    (_, Some(_)) => false,
-                };
-                if !ok {
-                    return Err(violation("owner.model_eq", kind, i, format!("owner_of({t}) = {:?}, model {:?} after {s:?}", r.map(|x| x.map(|ad| w.idx(&ad))), want)));
+                if r.as_ref().map(|ad| w.idx(ad)) != want.map(Some) {
+                    return Err(violation("owner.model_eq", kind, i, format!("owner_of({t}) = {:?}, model {:?} after {s:?}", r.map(|ad| w.idx(&ad)), want)));
                 }
-                let ga = c.get_approved(&t);
+                let ga = c.get_approved(t);
                 if ga != m.approved(t).map(|x| a(x)) {
                     return Err(violation("approval.model_eq", kind, i, format!("get_approved({t}) = {:?} model {:?} now {}", ga.map(|ad| w.idx(&ad)), m.approved(t), w.now())));
                 }
@@ -442,31 +589,35 @@ impl Check for NftEnumerable {
                 }
             }
             // ---- enumerations mirror ownership
-            let live: std::collections::BTreeMap<u32, usize> = (0..m.next).filter_map(|t| m.owner_of(t).map(|o| (t, o))).collect();
+            if !enumerable {
+                st.state(&(2u8, m.batches.len(), m.moved.len().min(12), m.explicit.len().min(6), m.appr.len().min(4), m.ops.len().min(4)));
+                continue;
+            }
+            let live = m.live_ids();
             let ts = c.total_supply();
             if ts as usize != live.len() {
                 return Err(violation("supply.eq", kind, i, format!("total_supply {ts}, model {}", live.len())));
             }
             let mut seen = BTreeSet::new();
             for k in 0..ts {
-                let t = c.get_token_id(&k);
+                let t = c.get_token_id(k).expect("index below total_supply answers");
                 if !live.contains_key(&t) || !seen.insert(t) {
                     return Err(violation("enum.global_permutation", kind, i, format!("global index {k} holds {t} (dead or repeated) after {s:?}")));
                 }
             }
-            if c.try_get_token_id(&ts).is_ok() {
+            if c.get_token_id(ts).is_some() {
                 return Err(violation("enum.global_permutation", "past_end", i, "global index == total_supply answers".into()));
             }
             for x in 0..cfg.actors {
                 let mine: BTreeSet<u32> = live.iter().filter(|(_, o)| **o == x).map(|(t, _)| *t).collect();
                 let mut seen = BTreeSet::new();
                 for k in 0..mine.len() as u32 {
-                    let t = c.get_owner_token_id(&a(x), &k);
+                    let Some(t) = c.get_owner_token_id(&a(x), k) else { return Err(violation("enum.owner_permutation", kind, i, format!("owner {x}: index {k} < balance does not answer after {s:?}"))) };
                     if !mine.contains(&t) || !seen.insert(t) {
                         return Err(violation("enum.owner_permutation", kind, i, format!("owner {x} index {k} holds {t}, model {mine:?} after {s:?}")));
                     }
                 }
-                if c.try_get_owner_token_id(&a(x), &(mine.len() as u32)).is_ok() {
+                if c.get_owner_token_id(&a(x), mine.len() as u32).is_some() {
                     return Err(violation("enum.owner_permutation", "past_end", i, format!("owner {x}: index == balance answers")));
                 }
             }
@@ -474,17 +625,11 @@ impl Check for NftEnumerable {
         }
         // ---- end of run: full sweep when the id range is small enough
         if m.next <= 4000 {
-            for t in 0..m.next + 3 {
-                let r = c.try_owner_of(&t);
+            for t in (0..m.next + 3).chain(m.explicit.keys().cloned()) {
+                let r = c.owner_of(t);
                 let want = m.owner_of(t);
-                let ok = match (&r, want) {
-                    (Ok(Ok(addr)), Some(x)) => *addr == a(x),
-                    (Ok(Ok(_)), None) => false,
-                    (_, None) => true,
-                    (_, Some(_)) => false,
-                };
-                if !ok {
-                    return Err(violation("owner.model_eq", "sweep", steps.len(), format!("owner_of({t}) = {:?}, model {:?}", r.map(|x| x.map(|ad| w.idx(&ad))), want)));
+                if r.as_ref().map(|ad| w.idx(ad)) != want.map(Some) {
+                    return Err(violation("owner.model_eq", "sweep", steps.len(), format!("owner_of({t}) = {:?}, model {:?}", r.map(|ad| w.idx(&ad)), want)));
                 }
             }
             st.hit("probe.full_sweep");
